@@ -1268,3 +1268,90 @@ def rule_regdeliv1(ctx: Ctx) -> RuleResult:
           f"the generator receives `{given}` while the command line configures {sorted(recvs)}: --datetime and "
           f"--disable-str-serializable-types have no effect on this run (or act on another registry)", g.lineno)
     return rr
+
+
+# ---------------------------------------------------------------------------------------------------------------
+def rule_argfwd1(ctx: Ctx) -> RuleResult:
+    """convert_args (the wrapper behind Cli's generator and comparator tables) hands every argument on."""
+    rr = RuleResult("ARGFWD-1", "the converting wrapper passes every positional and keyword argument to the wrapped callable", floor=3)
+    f = ctx.prog.func("json_to_models/utils.py", "convert_args")
+    inner = [g for g in ctx.prog.all_funcs() if g.parent is f]
+    if len(inner) != 1:
+        raise AnalysisError(f"ARGFWD-1: expected one wrapper inside convert_args, found {len(inner)}")
+    w = inner[0]
+    va = w.node.args.vararg.arg if w.node.args.vararg else None
+    kw = w.node.args.kwarg.arg if w.node.args.kwarg else None
+    if not va or not kw:
+        raise AnalysisError("ARGFWD-1: the wrapper does not take *args and **kwargs")
+    fn = f.params[0]
+    calls = [n for n in walk_no_nested(w.node) if isinstance(n, ast.Call) and norm(n.func) == fn]
+    if len(calls) != 1:
+        raise AnalysisError(f"ARGFWD-1: expected one call of `{fn}` in the wrapper, found {len(calls)}")
+    c = calls[0]
+
+    def origin(e, seen=()):
+        """names of the wrapper's parameters an expression is built from (through single-definition locals)"""
+        out = set()
+        for x in ast.walk(e):
+            if isinstance(x, ast.Name):
+                if x.id in (va, kw):
+                    out.add(x.id)
+                elif x.id not in seen:
+                    for n in walk_no_nested(w.node):
+                        if isinstance(n, ast.Assign) and any(isinstance(t, ast.Name) and t.id == x.id for t in n.targets):
+                            out |= origin(n.value, seen + (x.id,))
+        return out
+
+    stars = [a.value for a in c.args if isinstance(a, ast.Starred)]
+    dstars = [k.value for k in c.keywords if k.arg is None]
+    # positional: a converted prefix and the unconverted rest
+    rr.instances += 1
+    pos_from_args = [s_ for s_ in stars if va in origin(s_)]
+    has_rest = any(any(isinstance(x, ast.Subscript) and isinstance(x.slice, ast.Slice) and x.slice.lower is not None and
+                       norm(x.value) == va for x in ast.walk(d)) or norm(d) == va
+                   for s_ in stars for d in ([s_] + [n.value for n in walk_no_nested(w.node) if isinstance(n, ast.Assign)
+                                                        and isinstance(s_, ast.Name) and norm(n.targets[0]) == s_.id]))
+    ok = len(pos_from_args) >= 1 and has_rest
+    rr.ob(w.relpath, w.qualname, norm(c)[:80], "positional arguments beyond the configured converters are passed on unconverted",
+          DISCHARGED if ok else VIOLATED, "converted prefix + rest" if ok else
+          "the positional arguments that have no converter are not forwarded", c.lineno)
+    # keywords: all of them
+    rr.instances += 1
+    okk = False
+    whyk = "no ** forwarding of the keyword arguments"
+    for d in dstars:
+        e = d
+        if isinstance(d, ast.Name) and d.id != kw:
+            defs = [n for n in walk_no_nested(w.node) if isinstance(n, ast.Assign) and norm(n.targets[0]) == d.id]
+            if len(defs) == 1:
+                e = defs[0].value
+        if isinstance(e, ast.Name) and e.id == kw:
+            okk = True
+        elif isinstance(e, ast.DictComp) and len(e.generators) == 1:
+            g0 = e.generators[0]
+            okk = norm(g0.iter) in (kw, f"{kw}.keys()", f"{kw}.items()", f"list({kw})", f"list({kw}.items())") and not g0.ifs
+            whyk = "" if okk else f"the comprehension iterates `{norm(g0.iter)}` with a filter: some keyword arguments are dropped"
+        elif isinstance(e, ast.Dict) and any(k is None and norm(v) == kw for k, v in zip(e.keys, e.values)):
+            okk = True
+    rr.ob(w.relpath, w.qualname, norm(c)[:80], "every keyword argument reaches the wrapped callable (converted when a converter is "
+          "configured for it, as it is otherwise)", DISCHARGED if okk else VIOLATED, "all keywords" if okk else whyk, c.lineno)
+    # the value passed for a keyword without converter is the original
+    rr.instances += 1
+    ok3 = True
+    why3 = "as given"
+    for d in dstars:
+        e = d
+        if isinstance(d, ast.Name) and d.id != kw:
+            defs = [n for n in walk_no_nested(w.node) if isinstance(n, ast.Assign) and norm(n.targets[0]) == d.id]
+            if len(defs) == 1:
+                e = defs[0].value
+        if isinstance(e, ast.DictComp):
+            v = e.value
+            if isinstance(v, ast.IfExp):
+                orig = norm(v.orelse)
+                tgt = norm(e.generators[0].target)
+                ok3 = orig in (f"{kw}[{norm(e.key)}]", tgt.split(", ")[-1].strip("()")) and norm(e.key) in tgt.replace("(", "").replace(")", "").split(", ")
+                why3 = "as given" if ok3 else f"a keyword without converter is passed as `{orig}`"
+    rr.ob(w.relpath, w.qualname, norm(c)[:80], "a keyword without a converter keeps its name and value", DISCHARGED if ok3 else VIOLATED,
+          why3, c.lineno)
+    return rr
